@@ -169,7 +169,9 @@ func (r *gRun) nothingSubstituted() bool {
 		return false
 	}
 	for _, n := range r.sc.nodes {
-		if n.flt != 0 || n.early != 0 || n.after != 0 || utInfos[n.ty].pp {
+		if n.flt != 0 || n.early != 0 || n.after != 0 || utInfos[n.ty].pp && n.ty != 24 && n.ty != 36 {
+			// (types 24 and 36 are user processors that substitute nothing, veto nothing and change no property: they look at
+			// their argument — and rearrange the slice they were handed, which is theirs)
 			return false
 		}
 	}
@@ -294,6 +296,14 @@ func (r *gRun) matchOracles(add func(sig, format string, a ...any)) {
 						add("c07-required", "start-up succeeded although required by-name point %s (%q) cannot be satisfied", key, sc.name)
 					}
 				}
+				// … and it is THE component registered under that name: the very object the container hands out for the name
+				// (GetComponentByName after the start), not another version of it. (Not where a holder was completed during an
+				// earlier, tolerated, failed attempt to create the named component: known finding KF-C03-1, judged by C03.)
+				if len(rows) == 1 && rows[0] == sc.named && sc.named >= 0 && sc.named < len(r.sc.nodes) {
+					if p, ok := r.pubs[sc.named]; ok && p != "?" && p != "!" && objs[0] != p && !r.leftFromFailedAttempt(key, strconv.Itoa(sc.named)) {
+						add("c07-published", "by-name point %s (%q) holds %s, but the component the container hands out for that name is %s: the point did not receive the component registered under the name", key, sc.name, objs[0], p)
+					}
+				}
 			}
 			continue
 		}
@@ -357,6 +367,150 @@ func (r *gRun) matchOracles(add func(sig, format string, a ...any)) {
 					add("c02-populated", "start-up succeeded, nothing is substituted, but the required point %s is empty although candidates %v exist", key, sc.choice)
 				}
 			}
+		}
+	}
+}
+
+// ---- ninth round
+
+// byNameOnly: nothing is substituted, no fault is injected (the look-me-up-after-the-start mark is not a fault), no
+// configuration slot, no user post-processor, and every injection point of every node is a by-name wire through an `any`
+// slot that names an existing node other than its holder — or is optional and names nothing that is registered. Such a
+// population resolves completely (C02), at the start or in a lookup after it, and every such point receives the named
+// component (C07).
+func (r *gRun) byNameOnly() bool {
+	if r.sc.loaderFail || r.sc.scanFail || r.sc.progQualified() || r.sc.reentrant() || r.sc.hasType(34) || len(r.sc.nodes) == 0 {
+		return false
+	}
+	names := map[string]int{}
+	for i := range r.sc.nodes {
+		if i >= len(r.rows) || r.rows[i].obj == nil {
+			return false
+		}
+		names[r.rows[i].name] = i
+	}
+	for i, n := range r.sc.nodes {
+		if n.flt&^fltLookup != 0 || n.early != 0 || n.after != 0 || n.cfg != 0 || utInfos[n.ty].pp || hasStaticSlots(n.ty) {
+			return false
+		}
+		for slot, tag := range n.slots {
+			if slot != "A0" && slot != "A1" && slot != "A2" || tag[0] != 'w' {
+				return false
+			}
+			optional := strings.HasSuffix(tag, ",required=false")
+			target := strings.TrimSuffix(tag[1:], ",required=false")
+			if target == "" || strings.Contains(target, ",") {
+				return false
+			}
+			j, ok := names[target]
+			if _, anyRow := r.rowOf[target]; !ok && (anyRow || !optional) {
+				return false // names a component outside the universe, or a required point names nothing
+			}
+			if ok && j == i {
+				return false
+			}
+		}
+	}
+	return true
+}
+
+// lookupOracles: a lazy component that is looked up after a successful start, in a population that resolves completely
+// (byNameOnly), is created by the lookup
+func (r *gRun) lookupOracles(add func(sig, format string, a ...any)) {
+	if r.status != "ok" || r.retries == nil || !r.byNameOnly() {
+		return
+	}
+	for i, n := range r.sc.nodes {
+		if n.flt&fltLookup == 0 || r.startCreated[i] {
+			continue
+		}
+		if _, ok := r.succAtt[i]; !ok {
+			if _, tried := r.firstAtt[i]; tried {
+				for _, sig := range []string{"c07-named-undelivered", "c02-lookup-resolvable-fails"} {
+					add(sig, "every lookup of the lazy node %d after the start failed although every injection point of the population names a registered component of its own application (or is optional and names none): the named components exist and were not delivered", i)
+				}
+			}
+		}
+	}
+}
+
+// mayBeCreatedFor: the components that the creation of a holder may legitimately create for one of its points, by the
+// harness's own statement of the candidate rule: by name the named one; a multi-valued point all admitted ones; a
+// single-valued point the one it receives — the unique Primary, else the unique unnamed candidate; where that choice is tied
+// (several Primaries / several unnamed / neither) any member of the tied class.
+func mayBeCreatedFor(r *gRun, key string) []int {
+	sc, ok := candsOf(r, key)
+	if !ok {
+		return nil
+	}
+	if sc.byName {
+		if sc.named >= 0 {
+			return []int{sc.named}
+		}
+		return nil
+	}
+	if sc.kind != "p" && sc.kind != "i" {
+		return sc.admitted
+	}
+	var prims, unnamed []int
+	for _, c := range sc.choice {
+		if r.rows[c].primary {
+			prims = append(prims, c)
+		}
+		if !r.rows[c].custom {
+			unnamed = append(unnamed, c)
+		}
+	}
+	switch {
+	case len(prims) > 0:
+		return prims
+	case len(unnamed) > 0:
+		return unnamed
+	}
+	return sc.choice
+}
+
+// lazyOracles (C05): a component whose type carries the LazyInit marker is created by the start only if a component that the
+// start creates anyway needs it — directly or through other lazy components. "Needs" is read generously: a component needs
+// whatever one of its points may receive (mayBeCreatedFor). Not evaluated where something asks for components in code
+// (lookups after the start, callbacks that fetch by name, processors that qualify points in code).
+func (r *gRun) lazyOracles(add func(sig, format string, a ...any)) {
+	if r.status != "ok" || r.sc.reentrant() || r.sc.progQualified() || r.startCreated == nil {
+		return
+	}
+	isLazyNode := func(row int) bool {
+		return row < len(r.sc.nodes) && r.sc.nodes[row].ty < len(utInfos) && utInfos[r.sc.nodes[row].ty].lazy && !utInfos[r.sc.nodes[row].ty].pp
+	}
+	needed := map[int]bool{}
+	var work []int
+	for row := range r.rows {
+		if !isLazyNode(row) {
+			needed[row] = true
+			work = append(work, row)
+		}
+	}
+	pointsOf := map[int][]string{}
+	for key := range r.slotInfo {
+		h, err := strconv.Atoi(key[:strings.Index(key, ".")])
+		if err == nil {
+			pointsOf[h] = append(pointsOf[h], key)
+		}
+	}
+	for len(work) > 0 {
+		h := work[len(work)-1]
+		work = work[:len(work)-1]
+		for _, key := range pointsOf[h] {
+			for _, c := range mayBeCreatedFor(r, key) {
+				if c >= 0 && c < len(r.rows) && !needed[c] {
+					needed[c] = true
+					work = append(work, c)
+				}
+			}
+		}
+	}
+	for i := range r.sc.nodes {
+		if isLazyNode(i) && r.startCreated[i] && !needed[i] {
+			add("c05-lazy-unneeded", "node %d (universe type %d, declared with the LazyInit marker) was created and initialised by the start although no component that the start creates needs it, directly or through other lazy components: no point of any of them can receive it", i, r.sc.nodes[i].ty)
 		}
 	}
 }
